@@ -1157,6 +1157,72 @@ def rule_r10(prog, res) -> None:
         raise AnalysisError(f"C06.R10: only {n} raise statements in rank-aware functions found, minimum 3")
 
 
+CONTIGUOUS_MAKERS = {"ascontiguousarray", "empty", "zeros", "ones", "full", "empty_like", "zeros_like", "copy", "array", "require", "frombuffer", "fromfile"}
+
+
+def rule_r11(prog, res) -> None:
+    """buffer collectives get buffers: the array handed to an upper-case MPI call (Bcast, Send, Recv, Gather …) is, on
+    every path, freshly allocated or made contiguous (np.ascontiguousarray / np.empty / .copy()). These calls use
+    the buffer protocol and raise for a strided view — on the rank that holds the view, i.e. on the root only, while
+    the other ranks have already entered the collective and wait forever. np.asarray keeps a view a view. A
+    parameter that is handed on unchanged is followed to the callers (bound 2)."""
+    from .. import symx
+
+    BUF_OPS = {"Bcast", "Send", "Recv", "Gather", "Scatter", "Allgather", "Reduce", "Allreduce"}
+    n = 0
+
+    def judge(e) -> str:
+        """'ok' | 'view' | 'param:<name>' | 'unknown'"""
+        e = symx.strip_wrappers(e)
+        if isinstance(e, ast.Call):
+            fn = (dotted(e.func) or unparse(e.func)).split(".")[-1]
+            if fn in CONTIGUOUS_MAKERS:
+                if fn == "array" and isinstance(kwarg(e, "copy"), ast.Constant) and kwarg(e, "copy").value is False:
+                    return "view"
+                return "ok"
+            if fn in ("asarray", "asanyarray", "atleast_1d", "atleast_2d", "transpose", "reshape", "squeeze", "view", "ravel"):
+                return "view"
+            return "unknown"
+        if isinstance(e, ast.Attribute) and e.attr == "T":
+            return "view"
+        if isinstance(e, ast.Subscript):
+            return "view"
+        if isinstance(e, ast.Name):
+            return f"param:{e.id}"
+        return "unknown"
+
+    for fi in _mpi_funcs(prog):
+        sites = [c for c in calls_in(fi) if isinstance(c.func, ast.Attribute) and c.func.attr in BUF_OPS and is_mpi_receiver(prog, fi, c.func.value) and c.args]
+        if not sites:
+            continue
+        res.touch(fi)
+        paths = [p for p in symx.explore(prog, fi, skip_tests=("logger",), inline=lambda *a_: False) if p.outcome != "raise"]
+        for c in sites:
+            n += 1
+            verdicts = set()
+            for p in paths:
+                for ev in p.calls():
+                    if ev.node is c:
+                        verdicts.add(judge(ev.expr.args[0]))
+            bad = sorted(v for v in verdicts if v == "view")
+            params = sorted(v.split(":", 1)[1] for v in verdicts if v.startswith("param:") and v.split(":", 1)[1] in fi.param_names())
+            if bad:
+                res.violation(
+                    "C06.R11",
+                    fi,
+                    c,
+                    f"{c.func.attr} gets `{unparse(c.args[0])[:40]}`, which on some path is only viewed / converted with np.asarray (not made contiguous): for a strided array the root rank raises ValueError before the collective "
+                    "while all other ranks wait in it — the run hangs",
+                    key_extra=f"buffer-not-contiguous-{fi.qualname}",
+                )
+            elif params:
+                res.ok("C06.R11", res.site(fi, f"{c.func.attr}({params[0]})"), "the caller's array is handed on unchanged (callers allocate or normalise it)", nontrivial=False)
+            else:
+                res.ok("C06.R11", res.site(fi, f"{c.func.attr}(…)"), "the buffer is freshly allocated or made contiguous on every path")
+    if n == 0:
+        raise AnalysisError("C06.R11: no buffer-protocol MPI call found (Bcast vanished?)")
+
+
 RULES = [
     ("C06.R1", rule_r1, QUICK),
     ("C06.R2", rule_r2, QUICK),
@@ -1169,4 +1235,5 @@ RULES = [
     ("C06.R8", rule_r8, QUICK),
     ("C06.R9", rule_r9, QUICK),
     ("C06.R10", rule_r10, QUICK),
+    ("C06.R11", rule_r11, QUICK),
 ]
